@@ -48,17 +48,18 @@ def concatWritten : List Call → Bytes
   | .write mem len :: r => printnBytes mem len ++ concatWritten r
   | .flush :: r => concatWritten r
 
-/-- A terminal with buffer size `n`, an output method, nothing delivered and nothing pending. -/
-def fresh (n : Nat) (func fd : Bool) (m : Mode) : State :=
-  { hasFunc := func, hasFd := fd, bufLen := n, mode := m }
+/-- A terminal with buffer size `n`, an output function (`func`) and/or an output descriptor number `fd`
+    (-1 = none; any other number, 0 included, is a descriptor), nothing delivered and nothing pending. -/
+def fresh (n : Nat) (func : Bool) (fd : Int) (m : Mode) : State :=
+  { hasFunc := func, outfd := fd, bufLen := n, mode := m }
 
 /-- Non-vacuity: an admissible history with a straddling write, a flush, a change of the buffer size while
     idle, a mode change, a formatted write and a teardown — and something still pending in the middle. -/
 example : ∃ st' mid,
-    Admissible (fresh 4 true false { started := true })
+    Admissible (fresh 4 true (-1) { started := true })
       [.printn [1, 2, 3, 4, 5, 6, 0] 6, .flush, .setbuf 3, .ctl .altscreen true, .title [65, 66, 0], .teardown] ∧
-    run (fresh 4 true false { started := true }) [.printn [1, 2, 3, 4, 5, 6, 0] 6] = .ok mid ∧ mid.buf = [5, 6] ∧
-    run (fresh 4 true false { started := true })
+    run (fresh 4 true (-1) { started := true }) [.printn [1, 2, 3, 4, 5, 6, 0] 6] = .ok mid ∧ mid.buf = [5, 6] ∧
+    run (fresh 4 true (-1) { started := true })
       [.printn [1, 2, 3, 4, 5, 6, 0] 6, .flush, .setbuf 3, .ctl .altscreen true, .title [65, 66, 0], .teardown] = .ok st' ∧
     st'.buf = [] ∧ st'.out.length = 11 :=
   ⟨_, _, admissibleB_sound _ _ (by decide), rfl, rfl, rfl, by decide, by decide⟩
@@ -67,7 +68,7 @@ example : ∃ st' mid,
     sequence of writes and flushes: `concat delivered ++ pending = concat written`; every delivered chunk goes
     to the output method and, when `n > 0`, is non-empty and at most `n` bytes; and the fill level is `< n`
     when the sequence is over. -/
-theorem write_flush_transparent (n : Nat) (func fd : Bool) (hsink : func = true ∨ fd = true) (m : Mode)
+theorem write_flush_transparent (n : Nat) (func : Bool) (fd : Int) (hsink : func = true ∨ fd ≠ -1) (m : Mode)
     (calls : List Call) (st' : State) (hrun : run (fresh n func fd m) (calls.map Call.op) = .ok st') :
     stream st'.out ++ st'.buf = concatWritten calls ∧
     (∀ c ∈ st'.out, ChunkOK n (sink (fresh n func fd m)) c) ∧
@@ -84,7 +85,9 @@ theorem write_flush_transparent (n : Nat) (func fd : Bool) (hsink : func = true 
     cases c <;> simp [Call.op, IsConfig]
   have hns : NoSetbuf (calls.map Call.op) := by
     intro o ho k hk; subst hk; exact hnc _ ho trivial
-  have hadm := admissible_of_noSetbuf _ _ hwf (show Attached (fresh n func fd m) from hsink) hns
+  have hnd : NoDetach (calls.map Call.op) := by
+    intro o ho h0; subst h0; exact hnc _ ho trivial
+  have hadm := admissible_of_noSetbuf _ _ hwf (show Attached (fresh n func fd m) from hsink) hns hnd
   have h1 := run_mode_total _ _ _ hwf hadm hrun
   obtain ⟨hn, _, new, ho, hc⟩ := run_chunks_sink _ _ _ hwf hnc hrun
   have hwf' := run_wf _ _ _ hwf hrun
@@ -98,7 +101,7 @@ theorem write_flush_transparent (n : Nat) (func fd : Bool) (hsink : func = true 
   · intro h0; exact hwf'.1 (by rw [hn]; exact h0)
 
 /-- Non-vacuity: buffer of 4, writes of 3 and 7 bytes (the second straddles the buffer end twice). -/
-example : ∃ st', run (fresh 4 true false {}) ([Call.write [1, 2, 3, 0] 3, .write [4, 5, 6, 7, 8, 9, 10, 0] 7].map Call.op) = .ok st' ∧
+example : ∃ st', run (fresh 4 true (-1) {}) ([Call.write [1, 2, 3, 0] 3, .write [4, 5, 6, 7, 8, 9, 10, 0] 7].map Call.op) = .ok st' ∧
     st'.out = [.data .func [1, 2, 3, 4], .data .func [5, 6, 7, 8]] ∧ st'.buf = [9, 10] := ⟨_, rfl, rfl, rfl⟩
 
 /-! ### 2. identical to the unbuffered stream -/
@@ -108,11 +111,11 @@ example : ∃ st', run (fresh 4 true false {}) ([Call.write [1, 2, 3, 0] 3, .wri
     still pending — and nothing is ever pending on the unbuffered one. -/
 theorem same_as_unbuffered (s r s' r' : State) (ops : List Op)
     (hs : WF s) (hr : WF r) (hsa : Attached s) (hra : Attached r) (hmode : s.mode = r.mode) (hr0 : r.bufLen = 0)
-    (hns : NoSetbuf ops) (hsrun : run s ops = .ok s') (hrrun : run r ops = .ok r') :
+    (hns : NoSetbuf ops) (hnd : NoDetach ops) (hsrun : run s ops = .ok s') (hrrun : run r ops = .ok r') :
     ∃ w, stream s'.out ++ s'.buf = stream s.out ++ s.buf ++ w ∧ stream r'.out = stream r.out ++ w ∧ r'.buf = [] := by
   refine ⟨written s.mode ops, ?_, ?_, ?_⟩
-  · exact run_mode_total _ _ _ hs (admissible_of_noSetbuf _ _ hs hsa hns) hsrun
-  · have h := run_mode_total _ _ _ hr (admissible_of_noSetbuf _ _ hr hra hns) hrrun
+  · exact run_mode_total _ _ _ hs (admissible_of_noSetbuf _ _ hs hsa hns hnd) hsrun
+  · have h := run_mode_total _ _ _ hr (admissible_of_noSetbuf _ _ hr hra hns hnd) hrrun
     have hb : r.buf = [] := hr.1 hr0
     have hb' : r'.buf = [] := (run_wf _ _ _ hr hrrun).1 (by rw [(run_chunks _ _ _ hr hns hrrun).1]; exact hr0)
     rw [hb, hb', hmode.symm] at h
@@ -124,14 +127,20 @@ theorem same_as_unbuffered (s r s' r' : State) (ops : List Op)
 theorem flushed_same_as_unbuffered (s r s' r' : State) (ops : List Op)
     (hs : WF s) (hr : WF r) (hsa : Attached s) (hra : Attached r) (hmode : s.mode = r.mode) (hr0 : r.bufLen = 0)
     (hs0 : stream s.out ++ s.buf = stream r.out)
-    (hns : NoSetbuf ops) (hsrun : run s (ops ++ [.flush]) = .ok s') (hrrun : run r (ops ++ [.flush]) = .ok r') :
+    (hns : NoSetbuf ops) (hnd : NoDetach ops) (hsrun : run s (ops ++ [.flush]) = .ok s')
+    (hrrun : run r (ops ++ [.flush]) = .ok r') :
     stream s'.out = stream r'.out := by
   have hns' : NoSetbuf (ops ++ [.flush]) := by
     intro o ho k hk
     rcases List.mem_append.1 ho with h | h
     · exact hns o h k hk
     · simp at h; subst h; cases hk
-  obtain ⟨w, h1, h2, _⟩ := same_as_unbuffered s r s' r' _ hs hr hsa hra hmode hr0 hns' hsrun hrrun
+  have hnd' : NoDetach (ops ++ [.flush]) := by
+    intro o ho h0
+    rcases List.mem_append.1 ho with h | h
+    · exact hnd o h h0
+    · simp at h; subst h; cases h0
+  obtain ⟨w, h1, h2, _⟩ := same_as_unbuffered s r s' r' _ hs hr hsa hra hmode hr0 hns' hnd' hsrun hrrun
   obtain ⟨s1, _, hf⟩ := run_append.1 hsrun
   have hb : s'.buf = [] := by
     simp only [run, step] at hf
@@ -140,8 +149,8 @@ theorem flushed_same_as_unbuffered (s r s' r' : State) (ops : List Op)
   rw [h2]; simpa using h1
 
 /-- Non-vacuity for both: buffer sizes 3 and 0, same calls. -/
-example : ∃ s' r', run (fresh 3 true false {}) [.printn [1, 2, 3, 4, 5, 0] 5, .title [65, 0], .flush] = .ok s' ∧
-    run (fresh 0 true false {}) [.printn [1, 2, 3, 4, 5, 0] 5, .title [65, 0], .flush] = .ok r' ∧
+example : ∃ s' r', run (fresh 3 true (-1) {}) [.printn [1, 2, 3, 4, 5, 0] 5, .title [65, 0], .flush] = .ok s' ∧
+    run (fresh 0 true (-1) {}) [.printn [1, 2, 3, 4, 5, 0] 5, .title [65, 0], .flush] = .ok r' ∧
     stream s'.out = stream r'.out ∧ s'.out ≠ r'.out := ⟨_, _, rfl, rfl, by decide, by decide⟩
 
 /-- End to end, as the correspondence harness builds its terminals (`new <n> <func|fd|both> <late|early>`,
@@ -149,32 +158,43 @@ example : ∃ s' r', run (fresh 3 true false {}) [.printn [1, 2, 3, 4, 5, 0] 5, 
     for every buffer size, output method(s), construction order and every later history that leaves the
     buffer size alone, `delivered ++ pending` is the driver's start-up strings followed by what the history
     requests. -/
-theorem built_terminal_transparent (n : Nat) (f d early : Bool) (hsink : f = true ∨ d = true)
-    (ops : List Op) (hns : NoSetbuf ops) (s' : State)
-    (h : run init (buildOps n f d early ++ ops) = .ok s') :
+theorem built_terminal_transparent (n : Nat) (f d early : Bool) (fd : Int) (hfd : fd ≠ -1) (hsink : f = true ∨ d = true)
+    (ops : List Op) (hns : NoSetbuf ops) (hnd : NoDetach ops) (s' : State)
+    (h : run init (buildOps n f d early fd ++ ops) = .ok s') :
     stream s'.out ++ s'.buf = startBytes ++ written { started := true } ops := by
-  have hadm : Admissible init (buildOps n f d early ++ ops) := by
-    apply admissible_append _ _ _ (admissible_build n f d early)
+  have hadm : Admissible init (buildOps n f d early fd ++ ops) := by
+    apply admissible_append _ _ _ (admissible_build n f d early fd hfd)
     intro s1 h1
-    obtain ⟨hwf1, hat1⟩ := build_attached n f d early hsink s1 h1
-    exact admissible_of_noSetbuf _ _ hwf1 hat1 hns
+    obtain ⟨hwf1, hat1⟩ := build_attached n f d early fd hfd hsink s1 h1
+    exact admissible_of_noSetbuf _ _ hwf1 hat1 hns hnd
   have := run_mode_total _ _ _ init_wf hadm h
   have hm : init.mode = {} := rfl
-  rw [this, hm, written_build n f d early hsink]
+  rw [this, hm, written_build n f d early fd hsink]
   simp [init]
 
 /-- … hence the terminal under test and the never-buffered reference terminal of the harness, given the same
     calls, satisfy `delivered ++ pending = delivered_ref` after every call. -/
-theorem built_same_as_unbuffered (n : Nat) (f d early : Bool) (hsink : f = true ∨ d = true)
-    (ops : List Op) (hns : NoSetbuf ops) (s' r' : State)
-    (hs : run init (buildOps n f d early ++ ops) = .ok s')
-    (hr : run init (buildOps 0 f d early ++ ops) = .ok r') :
+theorem built_same_as_unbuffered (n : Nat) (f d early : Bool) (fdm fdr : Int) (hfdm : fdm ≠ -1) (hfdr : fdr ≠ -1)
+    (hsink : f = true ∨ d = true) (ops : List Op) (hns : NoSetbuf ops) (hnd : NoDetach ops) (s' r' : State)
+    (hs : run init (buildOps n f d early fdm ++ ops) = .ok s')
+    (hr : run init (buildOps 0 f d early fdr ++ ops) = .ok r') :
     stream s'.out ++ s'.buf = stream r'.out ∧ r'.buf = [] := by
-  have h1 := built_terminal_transparent n f d early hsink ops hns s' hs
-  have h2 := built_terminal_transparent 0 f d early hsink ops hns r' hr
+  have h1 := built_terminal_transparent n f d early fdm hfdm hsink ops hns hnd s' hs
+  have h2 := built_terminal_transparent 0 f d early fdr hfdr hsink ops hns hnd r' hr
   obtain ⟨r0, hr0, hr1⟩ := run_append.1 hr
   have hb0 : r0.bufLen = 0 := by
-    cases f <;> cases d <;> cases early <;> (injection hr0 with hr0; subst hr0; rfl)
+    cases early with
+    | true =>
+      have e : buildOps 0 f d true fdr = Op.setbuf 0 :: attachOps f d fdr := by simp [buildOps_eq]
+      rw [e] at hr0
+      obtain ⟨s1, hs1, hs2⟩ := run_cons hr0
+      simp only [step] at hs1; injection hs1 with hs1; subst hs1
+      have hwfs : WF (setOutputBuffer init 0) := by unfold WF setOutputBuffer; simp
+      exact (run_chunks _ _ _ hwfs (attachOps_noSetbuf f d fdr) hs2).1
+    | false =>
+      have e : buildOps 0 f d false fdr = attachOps f d fdr := by simp [buildOps_eq]
+      rw [e] at hr0
+      exact (run_chunks _ _ _ init_wf (attachOps_noSetbuf f d fdr) hr0).1
   have hwf0 : WF r0 := run_wf _ _ _ init_wf hr0
   have hb : r'.buf = [] :=
     (run_wf _ _ _ hwf0 hr1).1 (by rw [(run_chunks _ _ _ hwf0 hns hr1).1]; exact hb0)
@@ -205,7 +225,7 @@ theorem chunk_bound_call (st st' : State) (o : Op) (hwf : WF st) (h : step st o 
   step_chunks hwf h
 
 /-- Non-vacuity: 2 bytes pending in a buffer of 4, a write of 7: two full chunks go out, 1 byte stays. -/
-example : ∃ st', step { (fresh 4 false true {}) with buf := [1, 2] } (.printn [3, 4, 5, 6, 7, 8, 9, 0] 7) = .ok st' ∧
+example : ∃ st', step { (fresh 4 false 0 {}) with buf := [1, 2] } (.printn [3, 4, 5, 6, 7, 8, 9, 0] 7) = .ok st' ∧
     st'.out = [.data .fd [1, 2, 3, 4], .data .fd [5, 6, 7, 8]] ∧ st'.buf = [9] := ⟨_, rfl, rfl, rfl⟩
 
 /-- A whole history with the buffer size fixed. -/
@@ -219,7 +239,7 @@ theorem chunk_bound_history (st st' : State) (ops : List Op) (hwf : WF st) (hns 
 theorem fill_level_invariant (st st' : State) (ops : List Op) (hwf : WF st) (h : run st ops = .ok st') : WF st' :=
   run_wf ops st st' hwf h
 
-example : WF (fresh 4 true false {}) ∧ ¬ WF { (fresh 4 true false {}) with buf := [1, 2, 3, 4] } := by
+example : WF (fresh 4 true (-1) {}) ∧ ¬ WF { (fresh 4 true (-1) {}) with buf := [1, 2, 3, 4] } := by
   unfold WF fresh; decide
 
 /-! ### 4. after a flush nothing remains pending — and where the library flushes by itself -/
@@ -239,7 +259,7 @@ theorem destroy_drains (st st' : State) (hwf : WF st) (h : step st .destroy = .o
 /-- Attaching the first output method starts the driver, and the xterm driver's `start` ends with a flush
     (`start_ends_with_flush` is read from the source): the probing strings are never left in the buffer. -/
 theorem start_drains (st st' : State) (hns : st.mode.started = false)
-    (h : step st .setFunc = .ok st' ∨ step st .setFd = .ok st') : st'.buf = [] := by
+    (h : step st .setFunc = .ok st' ∨ ∃ fd, step st (.setFd fd) = .ok st') : st'.buf = [] := by
   have key : ∀ s0 : State, s0.mode.started = false → startIfUnstarted s0 = .ok st' → st'.buf = [] := by
     intro s0 h0 hh
     unfold startIfUnstarted at hh
@@ -251,13 +271,13 @@ theorem start_drains (st st' : State) (hns : st.mode.started = false)
     obtain ⟨s2, _, h1⟩ := bind_eq_ok.1 h1
     injection h1 with h1; subst h1
     exact condFlush_buf
-  rcases h with h | h
+  rcases h with h | ⟨fd, h⟩
   · exact key (preFunc st) (by rw [(preFunc_facts st).2.2.1]; exact hns) h
-  · exact key { st with hasFd := true } hns h
+  · exact key (postFd st fd) hns h
 
 /-- Non-vacuity of the three: something is pending and the mode makes the driver write on the way out. -/
-example : ∃ a b, step { (fresh 16 true false { started := true, altscreen := true }) with buf := [1, 2, 3] } .teardown = .ok a ∧
-    step { (fresh 16 true false { started := true, altscreen := true }) with buf := [1, 2, 3] } .destroy = .ok b ∧
+example : ∃ a b, step { (fresh 16 true (-1) { started := true, altscreen := true }) with buf := [1, 2, 3] } .teardown = .ok a ∧
+    step { (fresh 16 true (-1) { started := true, altscreen := true }) with buf := [1, 2, 3] } .destroy = .ok b ∧
     a.buf = [] ∧ b.buf = [] ∧ a.out.length = 1 ∧ b.out.length = 2 ∧
     stream a.out = [1, 2, 3] ++ teardown_altscreen ++ teardown_pen_reset :=
   ⟨_, _, rfl, rfl, by decide, by decide, by decide, by decide, by decide⟩
@@ -273,10 +293,10 @@ theorem pause_drains (st st' : State) (h : step st .pause = .ok st') : st'.buf =
   injection h with h; subst h
   exact condFlush_buf
 
-example : ∃ st', step { (fresh 64 true false { started := true, cursorvis := false }) with buf := [1, 2] } .pause = .ok st' ∧
+example : ∃ st', step { (fresh 64 true (-1) { started := true, cursorvis := false }) with buf := [1, 2] } .pause = .ok st' ∧
     st'.buf = [] ∧ stream st'.out = [1, 2] ++ teardown_cursorvis ++ teardown_pen_reset := ⟨_, rfl, by decide, by decide⟩
 
-example : ∃ st', step { (fresh 8 true false {}) with buf := [1, 2, 3] } .flush = .ok st' ∧
+example : ∃ st', step { (fresh 8 true (-1) {}) with buf := [1, 2, 3] } .flush = .ok st' ∧
     st'.out = [.data .func [1, 2, 3]] ∧ st'.buf = [] := ⟨_, rfl, rfl, rfl⟩
 
 /-! ### 5. "fixed while output is pending": what the proviso buys -/
@@ -290,14 +310,14 @@ theorem resize_when_idle (st st' : State) (n : Nat) (hidle : st.buf = []) (h : s
   refine ⟨by simp [setOutputBuffer, hidle], rfl, ?_⟩
   unfold WF setOutputBuffer; simp
 
-example : ∃ st', step { (fresh 4 true false {}) with out := [.data .func [1, 2, 3, 4]] } (.setbuf 9) = .ok st' ∧
+example : ∃ st', step { (fresh 4 true (-1) {}) with out := [.data .func [1, 2, 3, 4]] } (.setbuf 9) = .ok st' ∧
     st'.bufLen = 9 ∧ stream st'.out = [1, 2, 3, 4] := ⟨_, rfl, rfl, by decide⟩
 
 /-- … and the proviso is needed: `tickit_term_set_output_buffer` drops whatever is pending
     (`outbuffer_cur = 0` without a flush).  Two bytes written, buffer resized, flushed: nothing is ever
     delivered. -/
 theorem resize_while_pending_loses :
-    ∃ st', run (fresh 4 true false {}) [.printn [97, 98, 0] 2, .setbuf 8, .flush] = .ok st' ∧
+    ∃ st', run (fresh 4 true (-1) {}) [.printn [97, 98, 0] 2, .setbuf 8, .flush] = .ok st' ∧
       stream st'.out ++ st'.buf = [] ∧ written {} [.printn [97, 98, 0] 2, .setbuf 8, .flush] = [97, 98] :=
   ⟨_, rfl, by decide, by decide⟩
 
@@ -344,10 +364,69 @@ theorem vprintf_transparent (st st' : State) (s : Bytes) (hwf : WF st) (hat : At
   ⟨(termVprintf_ext hwf h).eqn hat, (termVprintf_ext hwf h).wf⟩
 
 /-- Non-vacuity at the edge: a 64-byte result takes the second pass and arrives complete. -/
-example : ∃ st', writeVstrf (fresh 0 true false {}) (List.replicate 64 65) = .ok st' ∧
+example : ∃ st', writeVstrf (fresh 0 true (-1) {}) (List.replicate 64 65) = .ok st' ∧
     st'.out = [.data .func (List.replicate 64 65)] ∧ st'.tmpLen = 65 := ⟨_, rfl, by decide, by decide⟩
 
-example : ∃ st', writeVstrf (fresh 0 true false {}) (List.replicate 63 65) = .ok st' ∧
+example : ∃ st', writeVstrf (fresh 0 true (-1) {}) (List.replicate 63 65) = .ok st' ∧
     st'.out = [.data .func (List.replicate 63 65)] ∧ st'.tmpLen = 0 := ⟨_, rfl, by decide, by decide⟩
+
+/-! ### 8. the output descriptor: every number other than -1 is a descriptor, 0 included -/
+
+/-- The test that guards `write(2)` is the same in `tickit_term_flush` (buffered output) and in the unbuffered arm
+    of `write_str`, and it is "`tt->outfd` is not -1" (both read from the source): whatever descriptor number the
+    unbuffered stream goes to, the buffered stream goes to as well — descriptor 0, which `TICKIT_OPEN_STDTTY` picks
+    when stdin is the terminal, is not special. -/
+theorem descriptor_test_same_buffered_unbuffered (fd : Int) :
+    flush_fd_guard fd = write_str_fd_guard fd ∧ (flush_fd_guard fd = true ↔ fd ≠ -1) :=
+  ⟨by rw [fd_guards_agree], flush_fd_guard_iff fd⟩
+
+/-- Without an output function, a flush hands everything pending to the descriptor as one chunk, for every
+    descriptor number; the unbuffered write does the same with its argument. -/
+theorem flush_writes_every_descriptor (st : State) (b : Bytes) (hnf : st.hasFunc = false) (hfd : st.outfd ≠ -1) :
+    deliver st b = { st with out := st.out ++ [.data .fd b] } ∧ deliverWith write_str_fd_guard st b = deliver st b ∧
+    (st.buf ≠ [] → (flush st).out = st.out ++ [.data .fd st.buf] ∧ (flush st).buf = []) := by
+  have hd : deliver st b = { st with out := st.out ++ [.data .fd b] } := by
+    unfold deliver deliverWith
+    simp [hnf, (flush_fd_guard_iff _).2 hfd]
+  refine ⟨hd, deliverWith_write_str st b, ?_⟩
+  intro hp
+  have hl : st.buf.length ≠ 0 := fun h => hp (List.eq_nil_of_length_eq_zero h)
+  refine ⟨?_, flush_buf st⟩
+  unfold flush
+  rw [if_neg hl]
+  show (deliver st st.buf).out = _
+  unfold deliver deliverWith
+  simp [hnf, (flush_fd_guard_iff _).2 hfd]
+
+/-- With both an output function and a descriptor the function wins, whatever the descriptor number. -/
+theorem function_wins (st : State) (b : Bytes) (hf : st.hasFunc = true) :
+    deliver st b = { st with out := st.out ++ [.data .func b] } ∧
+    deliverWith write_str_fd_guard st b = { st with out := st.out ++ [.data .func b] } := by
+  unfold deliver deliverWith
+  simp [hf]
+
+/-- The property on descriptor 0 (an instance of `write_flush_transparent`, spelled out because descriptor 0 is
+    what `TICKIT_OPEN_STDTTY` uses): nothing lost, chunks within the buffer, fill level below it. -/
+theorem descriptor_zero_transparent (n : Nat) (m : Mode) (calls : List Call) (st' : State)
+    (hrun : run (fresh n false 0 m) (calls.map Call.op) = .ok st') :
+    stream st'.out ++ st'.buf = concatWritten calls ∧ (∀ c ∈ st'.out, ChunkOK n .fd c) ∧
+    (0 < n → st'.buf.length < n) ∧ (n = 0 → st'.buf = []) :=
+  write_flush_transparent n false 0 (Or.inr (by decide)) m calls st' hrun
+
+/-- Non-vacuity: descriptor 0, buffer of 4, 6 bytes and a flush: both chunks arrive at the descriptor; the same
+    on descriptor 7 and unbuffered on descriptor 0; with no descriptor (-1) and no function nothing is delivered. -/
+example : ∃ a b c d, run (fresh 4 false 0 {}) [.printn [1, 2, 3, 4, 5, 6, 0] 6, .flush] = .ok a ∧
+    run (fresh 4 false 7 {}) [.printn [1, 2, 3, 4, 5, 6, 0] 6, .flush] = .ok b ∧
+    run (fresh 0 false 0 {}) [.printn [1, 2, 3, 4, 5, 6, 0] 6, .flush] = .ok c ∧
+    run (fresh 4 false (-1) {}) [.printn [1, 2, 3, 4, 5, 6, 0] 6, .flush] = .ok d ∧
+    a.out = [.data .fd [1, 2, 3, 4], .data .fd [5, 6]] ∧ b.out = a.out ∧ c.out = [.data .fd [1, 2, 3, 4, 5, 6]] ∧
+    d.out = [] ∧ a.buf = [] :=
+  ⟨_, _, _, _, rfl, rfl, rfl, rfl, by decide, by decide, by decide, by decide, by decide⟩
+
+/-- Non-vacuity: the harness's `new 3 both early 0 …`: the descriptor is attached first, so the driver's start-up
+    strings go through the buffer to descriptor 0; later output goes to the function. -/
+example : ∃ s, run init (buildOps 3 true true true 0 ++ [.printn [1, 2, 3, 0] 3]) = .ok s ∧
+    s.out.getLast? = some (.data .func [1, 2, 3]) ∧ s.out.head? = some (.data .fd [27, 91, 63]) ∧
+    stream s.out = startBytes ++ [1, 2, 3] := ⟨_, rfl, by decide, by decide, by decide⟩
 
 end Tickit.Props.C11
